@@ -68,7 +68,11 @@ class Runtime:
                     raise RuntimeError("str() of this exception raises")
                 return self_._s
 
-            k = type(str(c["name"]), bases, {"__module__": "vmod", "__str__": __str__, "_s": "unset"})
+            attrs = {"__module__": "vmod", "__str__": __str__, "_s": "unset"}
+            if c.get("falsy"):
+                # an exception object that is falsy (e.g. an aggregate of zero errors): `if exception:` is not `is not None`
+                attrs["__len__"] = lambda self_: 0
+            k = type(str(c["name"]), bases, attrs)
             self.classes[c["id"]] = k
             self.cls_id[k] = c["id"]
         self.excs = {e["id"]: e for e in env["excs"]}
@@ -90,6 +94,7 @@ class Runtime:
         self.cur_exc = []
         self.notes = []
         self.caller_dicts = []
+        self.shared_dicts = []  # dicts owned by the application that eliot is handed: (object, original content)
         self.writes = []  # every Logger.write call: (canonical dict before the call, has serializer)
         self.uuids = set()
         self.checks = []  # model-free property checks that failed: (property tag, what)
@@ -132,12 +137,15 @@ class Runtime:
         fields = dict((k, self.value(v)) for k, v in spec["fields"])
         fail = {k: e for k, e in spec["failAt"]}
 
+        shared = dict(fields)  # handed out again and again, like `vars(exception)` or a module-level constant
+        self.shared_dicts.append((shared, dict(fields)))
+
         def extract(exc):
             k = self.ext_calls
             self.ext_calls += 1
             if k in fail:
                 raise self.make_exc(fail[k])
-            return dict(fields)
+            return shared
 
         return extract
 
@@ -332,6 +340,8 @@ def run_case(case):
         _output.Logger.write = orig_write
     buf = 0
     result.update(offered=rt.offered, accepted=rt.accepted, probes=rt.probes, probeTypes=rt.probe_types)
+    for obj, orig in rt.shared_dicts:
+        rt.check("app-object", obj == orig, "a dictionary returned by an exception extractor (an object the application still owns) was modified by eliot: %r" % sorted(set(obj) - set(orig)))
     return result, rt
 
 
